@@ -4,6 +4,7 @@ import (
 	"bytes"
 	"encoding/binary"
 	"fmt"
+	"strings"
 
 	"github.com/syndtr/goleveldb/leveldb"
 	"github.com/syndtr/goleveldb/leveldb/opt"
@@ -276,6 +277,75 @@ func init() {
 				img.SetData(fd, d)
 			}
 			recoverCheck(w, img, "manifest removed and the first block of every table altered", loose, r)
+		}
+		if w.Failed() || len(first) == 0 {
+			return
+		}
+		// 6. a storage read error while Recover scans / rebuilds the tables (every table read in
+		// turn fails once): Recover reports it, or succeeds with exactly what the fault-free
+		// Recover yields; a retry after a reported error yields that too
+		mk := func() *vstor.Stor {
+			img := base.Clone()
+			img.Delete(meta)
+			img.ClearMeta()
+			for fd, off := range first {
+				d := append([]byte(nil), base.Data(fd)...)
+				d[off] ^= 0x55
+				img.SetData(fd, d)
+			}
+			return img
+		}
+		scanAll := func(db *leveldb.DB) (string, error) {
+			var b strings.Builder
+			it := db.NewIterator(nil, nil)
+			for it.Next() {
+				fmt.Fprintf(&b, "%q=%q;", it.Key(), it.Value())
+			}
+			err := it.Error()
+			it.Release()
+			return b.String(), err
+		}
+		refDB, err := leveldb.Recover(mk(), w.Cfg.Options())
+		if err != nil {
+			return // reported by step 5 already
+		}
+		ref, rerr := scanAll(refDB)
+		refDB.Close()
+		if rerr != nil {
+			return
+		}
+		for nth := 1; nth <= 48; nth++ {
+			img := mk()
+			rule := &vstor.Rule{Kind: vstor.KRead, Types: storage.TypeTable, Nth: nth, Count: 1, Mode: vstor.ModeFail}
+			img.Rules = []*vstor.Rule{rule}
+			db, err := leveldb.Recover(img, w.Cfg.Options())
+			if rule.Fired == 0 {
+				if db != nil {
+					db.Close()
+				}
+				break
+			}
+			r.Extra["recover_read_faults"]++
+			what := fmt.Sprintf("manifest removed, first block of every table altered, table read #%d fails once during Recover", nth)
+			if err != nil {
+				img.Rules = nil
+				db, err = leveldb.Recover(img, w.Cfg.Options())
+				if err != nil {
+					w.Viol = append(w.Viol, fmt.Sprintf("%s: Recover reported the error, the retry without faults fails: %v", what, err))
+					return
+				}
+				what += " (error reported, Recover retried)"
+			}
+			got, gerr := scanAll(db)
+			db.Close()
+			if gerr != nil {
+				w.Viol = append(w.Viol, fmt.Sprintf("%s: scan error %v", what, gerr))
+				return
+			}
+			if got != ref {
+				w.Viol = append(w.Viol, fmt.Sprintf("%s: contents %s, the fault-free Recover yields %s", what, got, ref))
+				return
+			}
 		}
 	}}
 	register(&Check{
